@@ -10,7 +10,7 @@ for k in $(seq 0 $((N-1))); do
     awk -v n=$N -v k=$k 'NR % n == k' build/seeds_list.txt | while read p; do
       c=$(echo $p | sed 's|.*/\(C[0-9][0-9]\)\.out/.*|\1|')
       echo "== $p prop: $c" >> $out
-      BASE=4360411 tools/try_seed.sh $p $c >> $out 2>&1
+      BASE=${BASE:-8b814e0} tools/try_seed.sh $p $c >> $out 2>&1
     done
   ) &
 done
